@@ -53,7 +53,7 @@ JudgeL(r) ==
            m == Mismatch(r, sg, R) IN
        IF R.unspec THEN <<>>
        ELSE IF m # "" THEN <<>>                                 \* not a fixed point / align variant: C02's business, not judged here
-       ELSE IF r.srcmap # SrcMapOf(R, r.lineOf)
+       ELSE IF r.hasSrcmap /\ r.srcmap # SrcMapOf(R, r.lineOf)
          THEN <<V(r.id, "violation", "", "source map differs: a byte range is not attributed to the statement that emitted it")>>
        ELSE IF r.rows = Listing(R, r.lineOf, r.nlines, r.bpl) THEN <<>>
        ELSE IF (Relocated(R) # {} \/ Overlapping(R)) /\ r.rows = ListingImpl(R, [i \in 1..Len(r.segs) |-> r.segs[i].name], r.lineOf, r.nlines, r.bpl)
